@@ -170,6 +170,9 @@ func Perm(name string, n int) []int {
 // MapOrder has no native effect: Go's own map iteration order applies.
 func MapOrder(on bool) {}
 
+// MapOrderMax: only maps with at most n entries are iterated in every order (default 4).
+func MapOrderMax(n int) {}
+
 func Concrete(x int) int { return x }
 
 func Assume(c bool) {
@@ -298,7 +301,21 @@ func RunReplay(t *testing.T, harnesses map[string]func()) {
 		if !ok {
 			continue
 		}
-		results = append(results, runCase(c, fn))
+		res := runCase(c, fn)
+		// outcomes that depend on Go's randomised map iteration order: try again a bounded number of
+		// times until the recorded failure shows (violation / known-finding cases only)
+		usesMapOrder := false
+		for _, in := range c.Inputs {
+			if strings.HasPrefix(in.Name, "maporder") {
+				usesMapOrder = true
+			}
+		}
+		if usesMapOrder && !strings.HasPrefix(c.ID, "witness") {
+			for try := 0; try < 80 && len(res.Failed) == 0 && len(res.Known) == 0 && res.Panic == ""; try++ {
+				res = runCase(c, fn)
+			}
+		}
+		results = append(results, res)
 	}
 	out, _ := json.MarshalIndent(results, "", " ")
 	if err := os.WriteFile(os.Getenv("ZZVERIF_OUT"), out, 0o644); err != nil {
